@@ -575,6 +575,40 @@ def h_adapt(env, mapping, utd, picks, patts, rebuild=False, canary=False):
     compare(env, A.circuit, Fr.circuit, "adapt")
 
 
+def h_uccgd_special(env, cfg):
+    """ENUMERATED concrete shape: UCCGD parameter vectors with exact ratios (p2 = -2 p0, p2 = -4 p0, ...) at which partial sums
+    of the generator cancel while it is accumulated, so that the term dictionary of the freshly computed generator is ordered
+    differently although its support is the same. After update_var_params the i-th variational gate must carry the angle of the
+    i-th Pauli word OF THE ORDER THE CIRCUIT WAS BUILT WITH (the words stay where they are; only the angles are written)."""
+    import math
+    from symx import shim
+    bad = []
+    with shim.concrete_mode():
+        A = make("uccgd", cfg)
+        n = A.n_var_params
+        t0 = [0.7, 0.2, 0.4, -0.3, 0.55, 0.15][:n]
+        A.build_circuit(list(t0))
+        order = [t for t, _ in A.pauli_order]
+        specials = [[0.5, 0.3, -1.0], [0.5, 0.3, -2.0], [0.25, -0.5, 0.5], [1.0, 1.0, -2.0], [0.3, 0.3, 0.3], [-0.5, 0.25, 1.0]]
+        for t1 in specials:
+            t1 = (t1 + [0.1 * (k + 1) for k in range(n)])[:n]
+            A.update_var_params(list(t1))
+            if [t for t, _ in A.pauli_order] != order:
+                order = [t for t, _ in A.pauli_order]          # the support changed: the circuit was rebuilt, new order
+            q = dict(A._get_qubit_operator().terms)
+            if set(q) != set(order):
+                bad.append((t1, "support of the generator differs from the words of the circuit"))
+                continue
+            for i, w in enumerate(order):
+                c = float(complex(q[w]).real)
+                want = 2 * c if c >= 0 else 4 * math.pi + 2 * c
+                got = float(A.circuit._variational_gates[i].parameter)
+                if abs(got - want) > 1e-12:
+                    bad.append((t1, i, w, got, want))
+                    break
+    env.check_true(not bad, "uccgd: after update_var_params gate i carries the angle of the i-th word of the circuit's own term order", detail=str(bad[:3]))
+
+
 def h_length(env, kind, cfg):
     """vectors of any length other than n_var_params are rejected by every entry point"""
     def fresh_built():
@@ -889,6 +923,9 @@ def shapes(tier, seed):
                              modules=MODS, max_paths=600, group=f"zero/{kind}"))
         if kind not in first_canary:
             first_canary[kind] = (cfg, n, occ)
+    for mp_, utd_ in (("jw", False), ("bk", True), ("scbk", True)):
+        out.append(Shape(f"update/uccgd-special-ratios/H2/{mp_}/utd={int(utd_)}", h_uccgd_special, dict(cfg=dict(mol="H2", mapping=mp_, utd=utd_)), modules=(),
+                         group="update/uccgd"))
     # ADAPT: operators added one by one
     pool_n = POOL_SIZE
     adapt_cfgs = [("jw", False, (0, 2)), ("jw", False, (pool_n - 1, 1, 3)), ("bk", True, (2, pool_n - 2)), ("scbk", True, (1,))]
